@@ -120,6 +120,10 @@ pub fn install_panic_hook() {
         if was {
             PANIC_MSG.with(|c| c.set(Some(msg)));
             IN_SUBJECT.with(|c| c.set(true));
+        } else if msg.contains("runaway I/O loop") {
+            // raised by the scripted reader on behalf of a spinning caller: it unwinds through crate
+            // code and is reported by subject() as that call's panic
+            PANIC_MSG.with(|c| c.set(Some(msg)));
         } else {
             eprintln!("HARNESS PANIC: {}", msg);
         }
